@@ -1,5 +1,5 @@
 (* C04 — only active-chain blocks are delivered; stale and header-only records never are. Pinned statements only: each theorem is closed by `exact` of a lemma proved in theories/. *)
-From RBP Require Import Bytes Hashes Wire Block BlockP Render Index IndexP Model ModelP StoreP CsvP.
+From RBP Require Import Bytes Hashes Wire Block BlockP Render Index IndexP Model ModelP StoreP CsvP C04Class.
 From RBP Require Drive Merkle Utxo Stats OutProto Reader Published Misc.
 
 Theorem C04_last_admitted_per_height :
@@ -30,6 +30,22 @@ Theorem C04_refuted :
   exists (kvs : list (bytes * bytes)) (idx : hmap) (r : irec), load_index (sort_kv kvs) [] = Ok idx /\ hm_get 2 idx = Some r /\ r_hash r = hashB /\ r_off r = 300.
 Proof. exact C04_refuted. Qed.
 
+Theorem C04_greatest_key_wins :
+  forall (kvs : list (bytes * bytes)) (idx : hmap) (h : N) (kv : bytes * bytes), sorted_keys kvs -> load_index kvs [] = Ok idx -> In kv kvs -> admitted_at h kv = true -> (forall kv' : bytes * bytes, In kv' kvs -> admitted_at h kv' = true -> key_leb (fst kv') (fst kv) = true) -> hm_get h idx = rec_of kv.
+Proof. exact greatest_key_wins. Qed.
+
+Theorem C04_outside_class_active_chain :
+  forall (kvs : list (bytes * bytes)) (idx : hmap) (active : N -> option (bytes * bytes)), sorted_keys kvs -> load_index kvs [] = Ok idx -> (forall (h : N) (kv : bytes * bytes), active h = Some kv -> In kv kvs /\ admitted_at h kv = true /\ (forall kv' : bytes * bytes, In kv' kvs -> admitted_at h kv' = true -> key_leb (fst kv') (fst kv) = true)) -> (forall h : N, active h = None -> forall kv : bytes * bytes, In kv kvs -> admitted_at h kv = false) -> forall h : N, hm_get h idx = match active h with | Some kv => rec_of kv | None => None end.
+Proof. exact C04_outside_class. Qed.
+
+Theorem C04_inside_class_competitor :
+  forall (kvs : list (bytes * bytes)) (idx : hmap) (h : N) (act comp : bytes * bytes), sorted_keys kvs -> load_index kvs [] = Ok idx -> In act kvs -> In comp kvs -> admitted_at h comp = true -> (forall kv' : bytes * bytes, In kv' kvs -> admitted_at h kv' = true -> key_leb (fst kv') (fst comp) = true) -> rec_of comp <> rec_of act -> hm_get h idx <> rec_of act.
+Proof. exact C04_inside_class. Qed.
+
+Theorem C04_model_order_is_sorted :
+  forall l : list (bytes * bytes), NoDup (map fst l) -> sorted_keys (sort_kv l).
+Proof. exact sort_kv_sorted. Qed.
+
 Print Assumptions C04_last_admitted_per_height.
 Print Assumptions C04_header_only_not_admitted.
 Print Assumptions C04_status_byte_sweep.
@@ -37,3 +53,7 @@ Print Assumptions C04_header_only_never_displaces.
 Print Assumptions C04_unique_admitted_is_kept.
 Print Assumptions C04_partial.
 Print Assumptions C04_refuted.
+Print Assumptions C04_greatest_key_wins.
+Print Assumptions C04_outside_class_active_chain.
+Print Assumptions C04_inside_class_competitor.
+Print Assumptions C04_model_order_is_sorted.
